@@ -169,6 +169,19 @@ def session_run(wl: dict, base: Path) -> dict:
                 return w2
 
             try:
+                if wl.get("session_interrupt") is not None:
+                    # an interruption INSIDE this process while a result is being written
+                    # (KeyboardInterrupt-like: the writer dies, the session - and its pid - go on)
+                    crashfs.PLAN = crashfs.KillPlan(kind="byte", at=int(wl["session_interrupt"]), file=0, whole=False)
+                    try:
+                        run_workload(variant(0), d, log)
+                        out["interrupted"] = "not_reached"
+                    except crashfs.SimWorkerDeath:
+                        out["interrupted"] = "yes"
+                    except Exception as e:  # noqa: BLE001
+                        out["interrupted"] = type(e).__name__
+                    finally:
+                        crashfs.PLAN = crashfs.KillPlan()
                 for step, (k, wipe, mutate) in enumerate([(0, False, False), (0, False, True), (0, False, False), (1, True, False), (1, False, False)]):
                     if wipe:
                         shutil.rmtree(d, ignore_errors=True)
@@ -309,6 +322,7 @@ def gen_workload(rng: SimRng, tier: str) -> dict:  # noqa: ARG001
         "W": r.choice([1, 2, 3, 5, 8]),
         "pool_seed": r.randrange(10**6),
         "scope": "parallel" if kind == "parallelise" or r.random() < 0.6 else "mxlpy",
+        "session_interrupt": r.choice([None, None, 0, 1, 5, 40]),
     }
 
 
@@ -383,8 +397,11 @@ class History:
         out = session_run(self.wl, self.base)
         self.trace.add("session", out.get("status"), [(st["k"], st["wipe"], st["equal"]) for st in out["steps"]])
         self.counters["in_process_sessions"] += 1
+        if out.get("interrupted"):
+            self.counters[f"fault_fired:in_process_interrupt:{out['interrupted']}"] += 1
         if out["status"] != "ok":
-            self._viol("cached_run_failed", ["cached_run_failed", self.wl["kind"], mode, "session:" + out.get("exc", "?")], f"a cached run inside a multi-run session raised {out.get('exc')}")
+            why = "after_in_process_interruption" if out.get("interrupted") not in (None, "not_reached") else "plain"
+            self._viol("cached_run_failed", ["cached_run_failed", self.wl["kind"], mode, "session:" + out.get("exc", "?"), why], f"a cached run inside a multi-run session raised {out.get('exc')} ({why}: same process, same pid)")
             return
         for i, st in enumerate(out["steps"]):
             if not st["equal"]:
